@@ -95,7 +95,7 @@ var vhColumnSets = [][]string{
 }
 
 //verif:shards 4
-//verif:bounds 4 table definitions (plain, INTEGER PRIMARY KEY alias with DEFAULT, table-constraint rowid alias, ordinary columns named oid/_rowid_) x 6 column lists (permutations, duplicates, rowid/oid/_rowid_, case variants, unknown names) x page size 512 / 4096 (thorough: + 65536) x trees of 1 leaf or interior+2 leaves with 1..2 rows per leaf; row values and rowids any int64; first-leaf rows optionally one column short (ALTER TABLE ADD COLUMN)
+//verif:bounds 4 table definitions (plain, INTEGER PRIMARY KEY alias with DEFAULT, table-constraint rowid alias, ordinary columns named oid/_rowid_) x 6 column lists (permutations, duplicates, rowid/oid/_rowid_, case variants, unknown names) x page size 512 / 4096 (thorough: + 1024) x trees of 1 leaf or interior+2 leaves with 1..2 rows per leaf; row values and rowids any int64; first-leaf rows optionally one column short (ALTER TABLE ADD COLUMN)
 //verif:prop C01,C20
 func VH_C01_select() {
 	sc := vhSchemas[sdb.VerifShard(4)]
@@ -103,9 +103,9 @@ func VH_C01_select() {
 	leaves := 1 + sdb.VerifChoice(2)
 	per := 1 + sdb.VerifChoice(2)
 	short := sdb.VerifChoice(2)
-	// page size: 512 and 4096 always; the largest, 65536 (stored as 1 in the
-	// header), in the thorough tier
-	sizes := [3]int{512, 4096, 65536}
+	// page size: 512 and 4096 always, 1024 in the thorough tier (the header
+	// encoding of 65536 is C15's, the spill arithmetic of every size C14's)
+	sizes := [3]int{512, 4096, 1024}
 	f := sdb.VerifNewFile(sizes[sdb.VerifChoice(2+sdb.VerifTier())])
 	root := f.AddPage()
 	f.Master([]sdb.VerifMasterRow{{Typ: "table", Name: "t", Tbl: "t", Root: root, SQL: sc.sql}})
